@@ -2,7 +2,7 @@
    (include/crab/domains/array_adaptive.hpp, lib/array_adaptive_impl.cpp): cell_t
    (overlap, symbolic_overlap), offset_map_t (mk_cell / erase / remove / get_overlap_cells /
    get_overlap_cells_symbolic_offset / join / meet / <=), array_state::can_be_smashed, the
-   coverage test added by fixes/arrays-4, and the decision table of array_store / array_load
+   coverage test added by fixes/arrays-5, and the decision table of array_store / array_load
    with the array_adaptive parameters as inputs.  The transfer functions themselves (ghost
    variables, renaming in the lattice operations, 3177 lines) are NOT modelled.
 
@@ -26,15 +26,14 @@ Definition c_overlap (c : cell) (o sz : Z) : bool :=
   if c_rem c then false
   else (0 <? c_size c) && (0 <? sz) && (c_off c <=? o + sz - 1) && (o <=? c_off c + c_size c - 1).
 
-(* cell_t::symbolic_overlap: [slb, sub] may contain the first or the last byte of the cell *)
+(* cell_t::symbolic_overlap: [slb, sub] may contain the first or the last byte of the cell.
+   One test: tmp += (b >= slb); tmp += (b <= sub); is tmp bottom? *)
+Definition sym_test (slb sub : linexp) (dom : env) (b : Z) : env :=
+  d_add [mkLC INEQ (le_addc (le_neg sub) b)] (d_add [mkLC INEQ (le_addc slb (- b))] dom).
 Definition c_sym_overlap (c : cell) (slb sub : linexp) (dom : env) : bool :=
   if c_rem c then false
-  else
-    let test (b : Z) :=
-      (* tmp += (b >= slb); tmp += (b <= sub) *)
-      d_add [mkLC INEQ (le_addc (le_neg sub) b)] (d_add [mkLC INEQ (le_addc slb (- b))] dom) in
-    if negb (e_is_bot (test (c_off c))) then true
-    else negb (e_is_bot (test (c_off c + c_size c - 1))).
+  else if negb (e_is_bot (sym_test slb sub dom (c_off c))) then true
+       else negb (e_is_bot (sym_test slb sub dom (c_off c + c_size c - 1))).
 
 (* ---- offset_map_t: cells sorted by (offset, size), one cell per (offset, size) ---- *)
 Definition omap := list cell.
@@ -136,7 +135,7 @@ Definition can_be_smashed (cells : list cell) (esz : Z) (allow_nonzero : bool) :
     else forallb (fun c => (c_size c =? esz) && ((c_off c - c_off c0) mod esz =? 0)) cells
   end.
 
-(* covers_all_offsets (fixes/arrays-4): every multiple of esz in idx is the offset of a cell
+(* covers_all_offsets (fixes/arrays-5): every multiple of esz in idx is the offset of a cell
    (z_number division truncates) *)
 Fixpoint covers_from (cells : list cell) (o esz : Z) (n : nat) : bool :=
   match n with
